@@ -184,6 +184,7 @@ func modelsC11(tier string) ([]*PktModel, []int) {
 		"other-port-only":   {A + "," + C + ",MT"},
 		"other-dest-only":   {A + "," + D + ",*"},
 		"wildcard-src-port": {"*," + C + ",*"},
+		"prefix-of-port":    {A + "," + C + ",NF", A + "," + C + ",tibc", A + "," + C[:len(C)-1] + ",*"},
 	}
 	var names []string
 	for n := range ruleSets {
